@@ -554,7 +554,7 @@ impl Engine for C01 {
     fn runs(&self, tier: Tier) -> u64 {
         match tier {
             Tier::Quick => 30_000,
-            Tier::Thorough => 300_000,
+            Tier::Thorough => 250_000,
         }
     }
 
